@@ -71,6 +71,8 @@ type Iface struct {
 type mapEntry struct {
 	k, v    Value
 	deleted bool
+	symKey  bool // key has symbolic parts
+	lazy    bool // inserted without resolving against older entries
 }
 
 // MapObj is a Go map with deterministic (insertion-ordered) iteration.
@@ -78,6 +80,7 @@ type MapObj struct {
 	idx     map[string]int // canonical key -> index into entries
 	entries []mapEntry
 	n       int
+	nlazy   int
 	epoch   uint32
 	kt, vt  types.Type
 }
@@ -367,6 +370,7 @@ type mapSnapshot struct {
 	idx     map[string]int
 	entries []mapEntry
 	n       int
+	nlazy   int
 }
 
 func (m *Machine) storeSlot(o *Obj, i int, v Value) {
@@ -429,7 +433,7 @@ func (m *Machine) logMap(mp *MapObj) {
 			return
 		}
 		m.mapLogged[mp] = true
-		snap := &mapSnapshot{idx: make(map[string]int, len(mp.idx)), entries: append([]mapEntry(nil), mp.entries...), n: mp.n}
+		snap := &mapSnapshot{idx: make(map[string]int, len(mp.idx)), entries: append([]mapEntry(nil), mp.entries...), n: mp.n, nlazy: mp.nlazy}
 		for k, v := range mp.idx {
 			snap.idx[k] = v
 		}
@@ -494,18 +498,38 @@ func (m *Machine) mapFind(mp *MapObj, k Value) int {
 		return -1
 	}
 	var sb strings.Builder
-	if keyString(k, &sb) {
-		if !mp.hasSymKeys() {
-			if i, ok := mp.idx[sb.String()]; ok {
+	conc := keyString(k, &sb)
+	// entries with symbolic keys, newest first (a lazily inserted one shadows older equals)
+	if mp.hasSymKeys() {
+		for i := len(mp.entries) - 1; i >= 0; i-- {
+			e := &mp.entries[i]
+			if e.deleted || !e.symKey {
+				continue
+			}
+			if m.branch(m.equalVals(e.k, k), "mapkey") {
 				return i
 			}
-			return -1
 		}
 	}
-	// symbolic key (or symbolic keys stored): compare entry by entry
+	if conc {
+		if i, ok := mp.idx[sb.String()]; ok {
+			return i
+		}
+		return -1
+	}
+	// symbolic key against the concrete-key entries
+	nconc := 0
+	for i := range mp.entries {
+		if !mp.entries[i].deleted && !mp.entries[i].symKey {
+			nconc++
+		}
+	}
+	if nconc > 6 {
+		return m.mapFindSym(mp, k)
+	}
 	for i := range mp.entries {
 		e := &mp.entries[i]
-		if e.deleted {
+		if e.deleted || e.symKey {
 			continue
 		}
 		if m.branch(m.equalVals(e.k, k), "mapkey") {
@@ -518,6 +542,32 @@ func (m *Machine) mapFind(mp *MapObj, k Value) int {
 func (mp *MapObj) hasSymKeys() bool {
 	_, ok := mp.idx["\x00sym"]
 	return ok
+}
+
+// resolveLazy merges lazily inserted symbolic-key entries with older equal entries; needed
+// before len, range and delete, which depend on the exact key set.
+func (m *Machine) resolveLazy(mp *MapObj) {
+	if mp == nil || mp.nlazy == 0 {
+		return
+	}
+	m.logMap(mp)
+	for i := range mp.entries {
+		if !mp.entries[i].lazy || mp.entries[i].deleted {
+			continue
+		}
+		k := mp.entries[i].k
+		mp.entries[i].lazy = false
+		mp.nlazy--
+		// look among older entries only
+		older := &MapObj{idx: mp.idx, entries: mp.entries[:i], n: i, kt: mp.kt, vt: mp.vt}
+		j := m.mapFind(older, k)
+		if j >= 0 {
+			mp.entries[j].v = mp.entries[i].v
+			mp.entries[i].deleted = true
+			mp.entries[i].v = nil
+			mp.n--
+		}
+	}
 }
 
 func (m *Machine) mapLookup(mp *MapObj, k Value) (Value, bool) {
@@ -533,18 +583,30 @@ func (m *Machine) mapUpdate(mp *MapObj, k, v Value) {
 		m.goPanicRuntime("assignment to entry in nil map")
 	}
 	m.logMap(mp)
+	var sb strings.Builder
+	conc := keyString(k, &sb)
+	if !conc && mp.n > 6 {
+		// symbolic key into a sizeable map: insert lazily, without deciding now whether it
+		// equals an existing key (lookups scan symbolic entries newest-first, so this entry
+		// shadows any older equal one; len/range/delete resolve it first)
+		mp.idx["\x00sym"] = -1
+		mp.entries = append(mp.entries, mapEntry{k: k, v: v, symKey: true, lazy: true})
+		mp.n++
+		mp.nlazy++
+		return
+	}
 	i := m.mapFind(mp, k)
 	if i >= 0 {
 		mp.entries[i].v = v
 		return
 	}
-	var sb strings.Builder
-	if keyString(k, &sb) {
+	if conc {
 		mp.idx[sb.String()] = len(mp.entries)
+		mp.entries = append(mp.entries, mapEntry{k: k, v: v})
 	} else {
 		mp.idx["\x00sym"] = -1
+		mp.entries = append(mp.entries, mapEntry{k: k, v: v, symKey: true})
 	}
-	mp.entries = append(mp.entries, mapEntry{k: k, v: v})
 	mp.n++
 }
 
@@ -552,6 +614,7 @@ func (m *Machine) mapDelete(mp *MapObj, k Value) {
 	if mp == nil {
 		return
 	}
+	m.resolveLazy(mp)
 	i := m.mapFind(mp, k)
 	if i < 0 {
 		return
@@ -624,3 +687,93 @@ func describe(v Value) string {
 var boxedEmptyStr Value = Str{}
 var boxedNilPtr Value = Ptr{}
 var boxedNilIface Value = Iface{}
+
+// concreteUnder evaluates a (possibly symbolic) scalar/string/tuple value under the model.
+func (m *Machine) concreteUnder(v Value) Value {
+	memo := map[*Term]uint64{}
+	var rec func(v Value) Value
+	rec = func(v Value) Value {
+		switch x := v.(type) {
+		case BV:
+			if x.T != nil {
+				return mkInt(x.W, evalTerm(x.T, m.path.model, memo))
+			}
+		case BoolV:
+			if x.T != nil {
+				return BoolV{C: evalTerm(x.T, m.path.model, memo) == 1}
+			}
+		case Str:
+			if x.Sym != nil {
+				b := []byte(x.S)
+				for i, t := range x.Sym {
+					if t != nil {
+						b[i] = byte(evalTerm(t, m.path.model, memo))
+					}
+				}
+				return Str{S: string(b)}
+			}
+		case Tuple:
+			out := make(Tuple, len(x))
+			for i, e := range x {
+				out[i] = rec(e)
+			}
+			return out
+		case Iface:
+			if x.t != nil {
+				return Iface{t: x.t, v: rec(x.v)}
+			}
+		}
+		return v
+	}
+	return rec(v)
+}
+
+// mapFindSym looks a symbolic key up in a map whose stored keys are all concrete.
+func (m *Machine) mapFindSym(mp *MapObj, k Value) int {
+	// any := OR_i (key_i == k)
+	anyT := m.tc.ff
+	for i := range mp.entries {
+		e := &mp.entries[i]
+		if e.deleted || e.symKey {
+			continue
+		}
+		c := m.equalVals(e.k, k)
+		if c.T == nil {
+			if c.C {
+				return i
+			}
+			continue
+		}
+		anyT = m.tc.Or(anyT, c.T)
+	}
+	for {
+		if !m.branch(m.fromTerm(anyT).(BoolV), "mapkey-any") {
+			return -1
+		}
+		// some entry matches under the current model: which one is a recorded choice
+		cand := uint64(1 << 62)
+		if m.path.pos >= len(m.path.trace) && m.ensureModel() {
+			var sb strings.Builder
+			if keyString(m.concreteUnder(k), &sb) {
+				if i, ok := mp.idx[sb.String()]; ok {
+					cand = uint64(i)
+				}
+			}
+		}
+		cand = m.recordChoice(cand)
+		if cand == 1<<62 {
+			// model gave no usable candidate: fall back to scanning
+			for i := range mp.entries {
+				e := &mp.entries[i]
+				if !e.deleted && !e.symKey && m.branch(m.equalVals(e.k, k), "mapkey") {
+					return i
+				}
+			}
+			return -1
+		}
+		if m.branch(m.equalVals(mp.entries[cand].k, k), "mapkey-cand") {
+			return int(cand)
+		}
+		// this path learnt k != entries[cand]; look again
+	}
+}
